@@ -13,6 +13,7 @@ reflexive, antisymmetric, transitive and total on convertible values FOR ALL val
 (`cmp_eq_cmp_convert_partial`) and fails inside them (`finding_*`).
 -/
 import Gms.Model.NumConv
+import Gms.Lemmas.NumConv
 import Gms.Generated.C26
 
 namespace Gms.Conv
@@ -58,8 +59,6 @@ theorem cmpInt_le (a b : Int) : (cmpInt a b).le = true ↔ a ≤ b := by
     · simp [h1, h3]; omega
 
 /-- a decimal key `(c, s)` denotes `c / 10^s`; `cmpDec` compares the denoted numbers -/
-theorem pow10_pos (n : Nat) : (0 : Int) < 10 ^ n := Int.pow_pos (by omega)
-
 theorem cmpDec_refl (x : Int × Nat) : cmpDec x x = .eq := by simp [cmpDec, cmpInt_refl]
 
 theorem cmpDec_flip (x y : Int × Nat) : cmpDec y x = (cmpDec x y).flip := by
@@ -463,119 +462,6 @@ theorem cmp_eq_cmp_convert_year_bit (t : Ty) (ht : t = .year ∨ ∃ n, t = .bit
         simp_all)
 
 
-theorem convertInt_i64 (v : Val) (hn : v ≠ .null) :
-    convertInt .i64 v = ⟨.int (convertToInt64 v).val, (convertToInt64 v).flag, (convertToInt64 v).err⟩ := by
-  cases v <;> first | exact absurd rfl hn | rfl
-
-theorem convertInt_u64 (v : Val) (hn : v ≠ .null) :
-    convertInt .u64 v = ⟨.int (convertToUint64 v).val, (convertToUint64 v).flag, (convertToUint64 v).err⟩ := by
-  cases v <;> first | exact absurd rfl hn | rfl
-
-/-- narrow types: the shape of `NumberTypeImpl_.Convert` after `convertToInt64` -/
-theorem convertInt_narrow (t : ITy) (ht : t ≠ .i64 ∧ t ≠ .u64) (v : Val) (hn : v ≠ .null) :
-    convertInt t v =
-      (let r := convertToInt64 v
-       if r.err = .fatal then ⟨.int (convertInt.wrapTo t r.val), r.flag, .fatal⟩
-       else if r.val > t.hi then ⟨.int t.hi, .overflow, .none⟩
-       else if r.val < t.lo then
-         ⟨.int (if t.unsigned then convertInt.wrapTo t (t.hi + r.val + 1) else t.lo), .underflow, .none⟩
-       else ⟨.int r.val, .inRange, r.err⟩) := by
-  cases v <;> first | exact absurd rfl hn | (cases t <;> first | exact absurd rfl ht.1 | exact absurd rfl ht.2 | rfl)
-
-/-- in range, without error: the stored value is the `convertToInt64` value -/
-theorem convertInt_narrow_inRange (t : ITy) (ht : t ≠ .i64 ∧ t ≠ .u64) (v : Val) (hn : v ≠ .null)
-    (he : (convertInt t v).err = .none) (hf : (convertInt t v).flag = .inRange) :
-    (convertInt t v).val = .int (convertToInt64 v).val ∧ (convertToInt64 v).err = .none ∧
-      t.lo ≤ (convertToInt64 v).val ∧ (convertToInt64 v).val ≤ t.hi := by
-  rw [convertInt_narrow t ht v hn] at he hf ⊢
-  simp only at he hf ⊢
-  by_cases h1 : (convertToInt64 v).err = .fatal
-  · rw [if_pos h1] at he; cases he
-  · rw [if_neg h1] at he hf ⊢
-    by_cases h2 : (convertToInt64 v).val > t.hi
-    · rw [if_pos h2] at hf; cases hf
-    · rw [if_neg h2] at he hf ⊢
-      by_cases h3 : (convertToInt64 v).val < t.lo
-      · rw [if_pos h3] at hf; cases hf
-      · rw [if_neg h3] at he hf ⊢
-        exact ⟨rfl, he, by omega, by omega⟩
-
-
-theorem toU64_eq_toI64 (v : Val) (hn : v ≠ .null) (hneg : v.negative = false)
-    (he : (convertToInt64 v).err = .none) (h0 : 0 ≤ (convertToInt64 v).val) (h1 : (convertToInt64 v).val < maxI64) :
-    (convertToUint64 v).val = (convertToInt64 v).val ∧ (convertToUint64 v).err = .none := by
-  cases v with
-  | null => exact absurd rfl hn
-  | i x =>
-    simp only [convertToInt64] at h0
-    have : ¬ x < 0 := by omega
-    simp [convertToUint64, convertToInt64, this]
-  | u x =>
-    simp only [convertToInt64] at h1 ⊢
-    by_cases hx : x > maxI64
-    · rw [if_pos hx] at h1; simp at h1
-    · simp [convertToUint64, hx]
-  | d c sc =>
-    simp only [Val.negative, decide_eq_false_iff_not] at hneg
-    simp only [convertToInt64] at h0 h1 he ⊢
-    by_cases hg : decGt c sc maxI64 = true
-    · rw [if_pos hg] at h1; simp at h1
-    · rw [if_neg hg] at h0 h1 ⊢
-      by_cases hl : decLt c sc minI64 = true
-      · rw [if_pos hl] at h0; simp [minI64] at h0
-      · rw [if_neg hl] at h0 h1 ⊢
-        have hg' : ¬ decGt c sc maxU64 = true := by
-          simp only [decGt, decide_eq_true_eq] at hg ⊢
-          have hp := pow10_pos sc
-          have : maxI64 * 10 ^ sc ≤ maxU64 * 10 ^ sc :=
-            Int.mul_le_mul_of_nonneg_right (by simp [maxI64, maxU64]) (Int.le_of_lt hp)
-          omega
-        simp only [convertToUint64]
-        rw [if_neg hg', if_neg hneg]
-        exact ⟨rfl, rfl⟩
-  | s bs =>
-    simp only [Val.negative] at hneg
-    simp only [convertToInt64, convertToUint64] at *
-    generalize truncateStringToInt bs = tt at *
-    obtain ⟨t, trunc⟩ := tt
-    simp only at *
-    by_cases hr : signedVal t < minI64 ∨ signedVal t > maxI64
-    · rw [if_pos hr] at he; cases he
-    · rw [if_neg hr] at he h0 h1 ⊢
-      simp only at he h0 h1 ⊢
-      have htr : trunc = false := by
-        cases trunc
-        · rfl
-        · simp at he
-      subst htr
-      match t, hneg, h0, h1, hr with
-      | [], _, _, _, _ => simp [signedVal, splitSign, digitsVal, maxU64]
-      | c :: ds, hneg, h0, h1, hr =>
-        have hc45 : c ≠ 45 := by
-          intro h; subst h; simp at hneg
-        by_cases hc43 : c = 43
-        · subst hc43
-          simp only [signedVal, splitSign] at h0 h1 hr ⊢
-          have : ¬ ((digitsVal ds 0 : Nat) : Int) > maxU64 := by simp only [maxI64, maxU64] at *; omega
-          simp [this]
-        · have hsv : signedVal (c :: ds) = (digitsVal (c :: ds) 0 : Nat) := by
-            unfold signedVal
-            split
-            · rename_i h; simp at h; exact absurd h.1 hc45
-            · rename_i h; simp at h; exact absurd h.1 hc43
-            · rfl
-          rw [hsv] at h0 h1 hr ⊢
-          have hm : splitSign (c :: ds) = (false, c :: ds) := by
-            unfold splitSign
-            split
-            · rename_i h; simp at h; exact absurd h.1 hc43
-            · rename_i h; simp at h; exact absurd h.1 hc45
-            · rfl
-          rw [hm]
-          have : ¬ ((digitsVal (c :: ds) 0 : Nat) : Int) > maxU64 := by simp only [maxI64, maxU64] at *; omega
-          simp [this]
-
-
 theorem key_eq_stored_int (it : ITy) (v : Val) (hn : v ≠ .null)
     (he : (convertInt it v).err = .none) (hf : (convertInt it v).flag = .inRange)
     (hneg : it.unsigned = true → v.negative = false) :
@@ -678,8 +564,8 @@ theorem toDecimal_scale_le (s : Nat) (col : Bool) (v : Val)
   cases v with
   | null => simp [toDecimal] at htd
   | s bs => simp [toDecimal] at htd
-  | i x => simp [toDecimal] at htd; omega
-  | u x => simp [toDecimal] at htd; omega
+  | i x => simp only [toDecimal] at htd; split at htd <;> simp at htd <;> omega
+  | u x => simp only [toDecimal] at htd; split at htd <;> simp at htd <;> omega
   | d c' sv =>
     simp only [scaleOK] at hsc
     simp only [toDecimal] at htd
@@ -693,8 +579,8 @@ theorem key_eq_stored_dec (p s : Nat) (col : Bool) (v : Val) (hn : v ≠ .null)
   | none =>
     cases v with
     | null => exact absurd rfl hn
-    | i x => simp [toDecimal] at htd
-    | u x => simp [toDecimal] at htd
+    | i x => simp only [toDecimal] at htd; split at htd <;> cases htd
+    | u x => simp only [toDecimal] at htd; split at htd <;> cases htd
     | d c sv => simp only [toDecimal] at htd; split at htd <;> cases htd
     | s bs => simp [convertDec, toDecimal] at he
   | some cs =>
